@@ -208,3 +208,64 @@ def store_preserves_inv(c):
     # protect path: the envelope built for "now" (position a) from a cached entry (position q) that covers "now" is never strictly later
     # than that entry, so _store_key leaves the cache unchanged and the (not ValidSeed) protection envelope is never cached
     c.prove("protection-envelope-is-never-stored", z3.Implies(covers(q1, q2, a1, a2), pos_le(a1, a2, q1, q2)))
+
+
+# ================================================================================================ load_key
+@REG.contract("dpapi_ng._client.KeyCache.load_key", props=["C10"])
+def load_key(c):
+    """load_key records exactly the given root key material under the given id and touches nothing else; the documented defaults
+    are the SHA512 KDF parameters and, for DH, the RFC 5114 2.3 group as captured from Windows (tests/data/ffc_dh_parameters)."""
+    import os
+
+    from .c_codecs import kdf_parameters_rope
+
+    I = c.I
+    if not c.verifying:
+        c.inline_instead()
+    cache = cache_obj(c)
+    c.param("self", T.const(cache))
+    key = c.param("key", T.Bytes)
+    g = c.param("root_key_id", T.UUID)
+    version = c.param("version", T.int(0, 2**32 - 1))
+    kdf_alg = c.param("kdf_algorithm", T.Str)
+    kdf_params = c.param("kdf_parameters", T.opt(T.Bytes))
+    sa = ["DH", "ECDH_P256", c.fresh(T.Str, "other_secret_algorithm")][c.ctx.choose(3, "secret_algorithm")]
+    if not isinstance(sa, str):
+        from pyvc.smt import str_lit
+
+        c.assume(z3.And(sa.term != str_lit("DH"), sa.term != str_lit("ECDH_P256")))  # the third case is "any other name"
+    c.param("secret_algorithm", T.const(sa))
+    sec_params = c.param("secret_parameters", T.opt(T.Bytes))
+    priv, pub = c.param("private_key_length", T.int(0, 2**32 - 1)), c.param("public_key_length", T.int(0, 2**32 - 1))
+    c.raises_only(set())
+    roots, seeds = cache.fields["_root_keys"], cache.fields["_seed_keys"]
+    captured = open(os.path.join(I.P.repo_root, "tests", "data", "ffc_dh_parameters"), "rb").read()
+
+    def ok():
+        now = roots.current(I, (g,))
+        if not isinstance(now, SObj) or now.cls.name != "RootKey":
+            return False
+        f = now.fields
+        given = lambda v: v is not None and I.ctx.entails(Z(c.len(v)) != 0)  # noqa: E731
+        absent = lambda v: v is None or I.ctx.entails(Z(c.len(v)) == 0)  # noqa: E731
+        conj = [c.eq(f["key"], key), c.eq(f["version"], version), c.eq(f["kdf_algorithm"], kdf_alg), c.eq(f["secret_algorithm"], sa),
+                c.eq(f["private_key_length"], priv), c.eq(f["public_key_length"], pub)]
+        if given(kdf_params):
+            conj.append(c.eq(f["kdf_parameters"], kdf_params))
+        elif absent(kdf_params):
+            conj.append(c.eq(f["kdf_parameters"], kdf_parameters_rope(c, "SHA512")))
+        else:
+            conj.append(False)
+        same = lambda a, b: (a is None and b is None) or (a is not None and b is not None and c.eq(a, b))  # noqa: E731
+        if sa != "DH":
+            conj.append(same(f["secret_parameters"], sec_params))  # stored as given (the default group only applies to DH)
+        elif given(sec_params):
+            conj.append(c.eq(f["secret_parameters"], sec_params))
+        elif absent(sec_params):
+            conj.append(c.eq(f["secret_parameters"], SBytes(R.Rope.lit(captured))))
+        else:
+            conj.append(False)
+        return conj
+
+    c.post("records-exactly-the-given-root-key-with-the-documented-defaults", ok)
+    c.post("frame-only-this-root-key-is-written", lambda: all(I.ctx.entails(Z(I.eq(k, (g,)))) for k in roots.written) and not seeds.written)
